@@ -1,6 +1,7 @@
 (* C13 - Staked SYM is locked for the life of the stake; voting power follows the stakes.
    Pinned statements only; proofs in STF/Proofs/Stakes.v. *)
-From MelVerif Require Import STF.Model STF.Proofs.Stakes STF.Proofs.Frame.
+From MelVerif Require Import STF.Model STF.Proofs.Stakes STF.Proofs.Frame STF.Proofs.SealCoins STF.Proofs.HashFacts
+  STF.Proofs.BatchSupply STF.Proofs.SealCounts STF.Proofs.History STF.Proofs.StakeHistory.
 Open Scope N_scope.
 
 (* registration: exactly when the transaction is a stake transaction whose data decodes to a document d,
@@ -56,3 +57,43 @@ Theorem C13_votes_def : forall st epoch key,
                            then acc + sd_staked d else acc) 0 st.
 Proof. exact votes_def. Qed.
 Print Assumptions C13_votes_def.
+
+(* ---- whole histories ([hstep], [hist_all]: see Properties/C20.v).
+   [Locked h i d c s]: the stake d is registered under the transaction hash h and the coin (h, i) is the coin c. *)
+Theorem C13_locked_def : forall h i d c s,
+  Locked h i d c s <-> s_stakes s !! h = Some d /\ s_coins s !! coin_key h i = Some c.
+Proof. exact locked_def. Qed.
+Print Assumptions C13_locked_def.
+
+(* per step: batches satisfy the hash-oracle assumptions, are outside the legacy heights, carry byte-sized input
+   indices and no faucet whose marker id is h; at a block boundary no pool request of the block and no reward id
+   has the hash h, and the new epoch is within the life of the stake *)
+Theorem C13_step_assumptions_def : forall SO h d s o,
+  stake_step_ok SO h d s o <->
+  match o with
+  | HBatch lh txs => HashOK SO s txs /\ legacy900 s = false /\
+      (forall t, In t txs -> so_faucet_marker SO (t_hash t) <> h) /\
+      (forall t inp, In t txs -> In inp (t_inputs t) -> snd inp < 256)
+  | HBlock a hdr =>
+      (forall t, In t (sorted_txs s) -> is_pool_request t = true -> t_hash t <> h) /\
+      so_reward_id SO (s_height s) <> h /\
+      (s_height s + 1) / STAKE_EPOCH <= sd_postend d
+  end.
+Proof. exact stake_step_ok_def. Qed.
+Print Assumptions C13_step_assumptions_def.
+
+(* registration starts the lock: the stake is in the set and the staked output in the coin tree *)
+Theorem C13_registration_locks : forall SO s lh txs s' t d first rest,
+  apply_tx_batch SO s lh txs = Ok s' -> HashOK SO s txs -> legacy900 s = false ->
+  (forall t inp, In t txs -> In inp (t_inputs t) -> snd inp < 256) ->
+  In t txs -> registers s t = Some d -> t_outputs t = first :: rest -> cd_covhash first <> 0 ->
+  Locked (t_hash t) 0 d (coin_of s t first) s'.
+Proof. exact registered_stake_locked. Qed.
+Print Assumptions C13_registration_locks.
+
+(* C13: the staked coin is in the coin tree, unchanged, and the stake in the stake set, in every state of every
+   history whose block boundaries stay within the life of the stake *)
+Theorem C13_locked_for_life : forall SO h i, i < 256 -> forall d c ops s,
+  Locked h i d c s -> hist_all SO (stake_step_ok SO h d) s ops -> Locked h i d c (fold_left (hstep SO) ops s).
+Proof. exact staked_coin_locked_for_life. Qed.
+Print Assumptions C13_locked_for_life.
